@@ -24,11 +24,13 @@ RULE = ('every unordered pair (and listed triples) of thread programs {build '
         'suspend blocks, deepcopy, dump_json, first use of a fresh callable '
         'shared by the threads, failing build with a fresh exception class, '
         '==, nested-build attempt, switching tracking off without restoring '
-        'it} under every schedule with at most k '
+        'it, dump_json with function / class leaves as argument values} under '
+        'every schedule with at most k '
         'preemptions at any Fiddle source line (plus every start / '
         'continuation order); plus every sequence of <= 3 programs run in '
         'threads that live one after the other (identifier / thread-local '
-        'recycling); a schedule is an execution; states = distinct '
+        'recycling, unhashable callable objects at recycled addresses); a '
+        'schedule is an execution; states = distinct '
         'observation vectors')
 ASSUMPTIONS = [
     'reduction: a thread is preempted only at the first K dynamic occurrences '
